@@ -90,6 +90,8 @@ HOSTILE = [
     ('verbatim-open', '\\documentclass{article}\\begin{document}Wq1x \\begin{verbatim}\nWq2x'),
     ('appendix', '\\documentclass{article}\\begin{document}\\section{Wq1x}\\appendix\\section{Wq2x}\\end{document}'),
     ('amsmath', '\\documentclass{article}\\usepackage{amsmath}\\begin{document}\\begin{align}a&=b\\\\c&=d\\end{align}\\end{document}'),
+    ('register-first-token', '\\parindent=30pt \\tolerance=9000 \\documentclass{article}\\begin{document}Wq1x \\the\\parindent\\end{document}'),
+    ('register-first-token-bare', '\\parskip=7pt plus 1pt Wq1x \\the\\parskip'),
     ('register-from-register', '\\documentclass{article}\\begin{document}\\parindent=\\parskip \\parskip=\\baselineskip \\parindent=2\\parskip \\thinmuskip=\\medmuskip '
                                '\\medmuskip=3mu plus 1mu \\tolerance=\\pretolerance Wq1x \\the\\parindent\\end{document}'),
     ('mu-arguments', '\\documentclass{article}\\begin{document}Wq1x \\zqmuargs 3mu 4mu plus 1mu Wq2x \\zqmuargs{2mu}{\\thinmuskip} Wq3x\\end{document}'),
@@ -109,7 +111,7 @@ PROBES = [
     '\\documentclass{article}\\begin{document}\\begin{enumerate}\\item Wq1x\\label{i1}\\begin{enumerate}\\item Wq2x\\label{i2}\\end{enumerate}\\end{enumerate}\\ref{i1} \\ref{i2}\\end{document}',
     '\\documentclass{article}\\begin{document}Wq1x $x^2$ Wq2x \\begin{enumerate}\\item Wq3x \\begin{enumerate}\\item Wq4x\\end{enumerate}\\end{enumerate}\\end{document}',
     '\\documentclass{book}\\usepackage{makeidx}\\makeindex\\begin{document}\\chapter{Wq1x}Wq2x\\index{b}\\section{Wq3x}\\begin{equation}y\\end{equation}\\printindex\\end{document}',
-    '\\documentclass{article}\\begin{document}\\the\\parindent Wq1x \\begin{tabular}{lc}Wq2x&Wq3x\\end{tabular} \\section{Wq4x}\\label{s}\\ref{s}\\end{document}',
+    '\\documentclass{article}\\begin{document}\\ifdim\\parindent>25pt Wq7x\\else Wq8x\\fi \\ifnum\\tolerance>1000 Wq9x\\fi \\the\\parskip \\the\\parindent Wq1x \\begin{tabular}{lc}Wq2x&Wq3x\\end{tabular} \\section{Wq4x}\\label{s}\\ref{s}\\end{document}',
     '\\documentclass{report}\\begin{document}\\chapter{Wq1x}\\begin{figure}Wq2x\\caption{Wq3x}\\end{figure}\\[ z \\] \\(w\\)\\end{document}',
 ]
 
